@@ -77,6 +77,11 @@ func checkC27(c c27Case) (o vstat.Outcome) {
 		o.Discard = true
 		return
 	}
+	// the sending peer wants every channel as well (so an echo back to it would be visible)
+	if err := a.send(&subsPkt); err != nil {
+		o.Discard = true
+		return
+	}
 	// warm-up: markers until the observer sees one (sessions up, observer's subscriptions processed)
 	warm := 0
 	ok := waitFor(8*time.Second, func() bool {
